@@ -2,6 +2,7 @@
      conn <mode> <step> <step> ...        mode: r = repaired model
    Steps (each followed by a settle):
      S:<kind>:<tmo>      start an operation on a clone of the handle; kind = single | sd | sa | ab<target> | unbind ; tmo = - | <ms>
+     P:<kind>:<tmo>      the same, but the caller is held between taking the message id and queueing the request (Alloc); E:<op> releases it (Enqueue)
      R:<mid>:<k>:<tok>   the server sends one complete response (k = e entry, r reference, i intermediate, d done, o other op, x single-op result)
      B:<mid>:<k>:<tok>   the server sends only a proper prefix of that response (nothing may be delivered)
      A:<ms>              the clock advances
@@ -63,7 +64,7 @@ let run_script (toks : string list) : string =
         while !continue && i.cmds <> [] do
           let c = getop o in
           (match c.o_status with
-           | CWait -> continue := false                        (* the stream does not exist yet *)
+           | CWait | CAlloc -> continue := false               (* the stream does not exist yet *)
            | SStartErr _ | SPanicked | COk0 _ | CErr _ | SClosed -> i.cmds <- []; continue := false   (* no stream (any more): the runner's stream task has ended *)
            | SActive | SDone | SError ->
              (match List.hd i.cmds with
@@ -110,7 +111,7 @@ let run_script (toks : string list) : string =
     let s = !st in
     let opstr o c =
       let status = match c.o_status with
-        | CWait -> "pending" | COk0 (Some r) -> Printf.sprintf "ok:%d" (int_of_nat r.r_tok) | COk0 None -> "ok:null" | CErr e -> "err:" ^ cerr_str e
+        | CAlloc -> "alloc" | CWait -> "pending" | COk0 (Some r) -> Printf.sprintf "ok:%d" (int_of_nat r.r_tok) | COk0 None -> "ok:null" | CErr e -> "err:" ^ cerr_str e
         | SActive -> "active" | SDone -> "done" | SClosed -> "closed" | SError -> "error" | SPanicked -> "panicked" | SStartErr e -> "starterr:" ^ cerr_str e in
       Printf.sprintf "%d:%s:[%s]:%s:%s" o status (String.concat "," (List.map (fun r -> string_of_int (int_of_nat r.r_tok)) c.o_got))
         (if c.o_call <> None then "call" else "idle") (info o).lastres in
@@ -124,7 +125,14 @@ let run_script (toks : string list) : string =
   let out = Buffer.create 256 in
   List.iter (fun tok ->
     (match String.split_on_char ':' tok with
-     | ["S"; _; _] when !main_dropped -> ()      (* no handle left to start an operation from *)
+     | ["S"; _; _] | ["P"; _; _] when !main_dropped -> ()      (* no handle left to start an operation from *)
+     | ["P"; k; tmo] ->
+         (* the caller's task takes its message id and is held before it hands the request to the driver (a thread preempted there) *)
+         apply (Alloc (kind_of_string k, (if tmo = "-" then None else if tmo = "max" then Some (z_of_decimal "18446744073709551615000") else Some (z_of_decimal tmo))))
+     | ["E"; o] ->
+         (* ... and goes on: the request is queued, the reply channel polled once *)
+         let o = int_of_string o in
+         if o < nops () && (getop o).o_status = CAlloc then begin apply (Enqueue (nat_of_int o)); apply (CliPoll (nat_of_int o)) end
      | ["G"; ks] when not !main_dropped ->      (* several operations started back to back: each allocates, queues and polls once; one settle *)
          List.iter (fun k -> let o = nops () in apply (Start (kind_of_string k, None)); if nops () > o then apply (CliPoll (nat_of_int o))) (String.split_on_char ',' ks)
      | ["G"; _] -> ()
